@@ -187,6 +187,17 @@ func c18Step(depth int, alphabet []world.Op) func(x *engine.Exec) []engine.Failu
 		}
 		if s.NSnapshots > 0 {
 			x.Cnt.Inc("boundary.with_weight_change_snapshots")
+			// delegations of one validator and denom whose last claims lie at different heights (one of them may need a
+			// snapshot the other has passed)
+			hs := map[string]uint64{}
+			for _, p := range s.Pos {
+				k := fmt.Sprintf("%d/%s", p.V, p.Denom)
+				if h, ok := hs[k]; ok && h != p.Raw.LastRewardClaimHeight {
+					x.Cnt.Inc("boundary.with_claim_heights_on_both_sides_of_a_snapshot")
+					break
+				}
+				hs[k] = p.Raw.LastRewardClaimHeight
+			}
 		}
 		if s.Flag {
 			x.Cnt.Inc("boundary.with_rebalance_flag_set")
@@ -299,14 +310,48 @@ func init() {
 			warm.Assets[0].ChangeRate, warm.Assets[0].ChangeInterval = "", 0
 			warm.Assets[2].StartOffset = 4 * U
 			reqWarm := []string{"boundary_states", "boundary.with_rebalance_flag_set", "lockstep.continuation_steps"}
+			// reward histories: two delegators of one validator and denom with different claim heights around weight-change
+			// snapshots (aaa decays every 2u, bbb's weight is changed by governance); continuations bring more rewards and let
+			// either of them claim - every payout must be the same unit for unit
+			rcfg := c18Config()
+			rcfg.Assets[0].TakeRate = "0"
+			rewardOps := func(n *engine.Node) []world.Op {
+				var ops []world.Op
+				for _, p := range [][3]any{{0, 0, "aaa"}, {1, 0, "aaa"}, {0, 0, "bbb"}} {
+					ops = append(ops, world.Op{K: world.KClaim, D: p[0].(int), V: p[1].(int), Denom: p[2].(string), Class: ClsUser})
+				}
+				if atBlockStart(n) {
+					ops = append(ops, world.Op{K: world.KReward, Denom: "stake", Amt: "100003", Class: ClsEnv}, world.Op{K: world.KReward, Denom: "stake", Amt: "9", Class: ClsEnv})
+				}
+				if a, ok := n.Snap().Assets["bbb"]; ok {
+					ops = append(ops, world.Op{K: world.KGovUpdate, Denom: "bbb", Class: ClsGov, Args: govArgs("authority", "2", "0,5", a.TakeRate.String(), "1", 0, false)})
+				}
+				for _, dt := range dts(1, 2) {
+					ops = append(ops, world.Op{K: world.KBlock, Dt: int64(dt), Class: ClsBlock})
+				}
+				return ops
+			}
+			rewardCont := []world.Op{
+				{K: world.KBlock, Dt: int64(2 * U)},
+				{K: world.KReward, Denom: "stake", Amt: "100003"}, {K: world.KReward, Denom: "stake", Amt: "9"},
+				{K: world.KClaim, D: 0, V: 0, Denom: "aaa"}, {K: world.KClaim, D: 1, V: 0, Denom: "aaa"}, {K: world.KClaim, D: 0, V: 0, Denom: "bbb"},
+			}
+			rewards := func(budgets []int, depth, cont int) *engine.Scenario {
+				sc := mk("c18-reward-history", rcfg, budgets, depth, cont, rewardCont, []string{"boundary_states", "boundary.with_weight_change_snapshots", "lockstep.continuation_steps", "boundary.with_claim_heights_on_both_sides_of_a_snapshot"})
+				sc.Seeds = [][]world.Op{{opDel(0, 0, "aaa", "100000"), opDel(1, 0, "aaa", "100000"), opDel(0, 0, "bbb", "70000"), opDel(1, 0, "bbb", "30000"), opBlock(1)}}
+				sc.Ops = rewardOps
+				return sc
+			}
 			if tier == "thorough" {
 				return []*engine.Scenario{
+					rewards([]int{2, 0, 2, 4, 1}, 8, 3),
 					mk("c18-genesis", c18Config(), []int{3, 1, 1, 3, 0}, 6, 2, c18Cont, reqAll),
 					mk("c18-genesis-deep-continuations", c18Config(), []int{2, 1, 1, 2, 0}, 4, 3, c18ContSmall, reqAll),
 					mk("c18-warmup-flag", warm, []int{1, 0, 0, 2, 0}, 3, 3, c18ContSmall, reqWarm),
 				}
 			}
 			return []*engine.Scenario{
+				rewards([]int{1, 0, 2, 3, 1}, 6, 2),
 				mk("c18-genesis", c18Config(), []int{2, 1, 1, 2, 0}, 4, 2, c18ContSmall, reqAll),
 				mk("c18-warmup-flag", warm, []int{1, 0, 0, 1, 0}, 2, 2, c18ContSmall, reqWarm),
 			}
